@@ -355,6 +355,11 @@ class CallMixin:
         if isinstance(fn, Val) and (isinstance(fn.ty, TRef) or (isinstance(fn.ty, TOpt) and isinstance(fn.ty.inner, TRef))):
             yield from self.call_attr(fn, "__call__", args, kwargs, st, node)
             return
+        if isinstance(fn, Val) and isinstance(fn.ty, TOpaque) and fn.ty.name == "Opaque(Class)" and st.env.get("__cls__") is not None:
+            # `cls(...)` inside a classmethod: the class the method is defined in (a subclass overriding __init__ is not modelled)
+            self.note_assumption("cls(...) in a classmethod constructs the defining class %s" % st.env["__cls__"].name)
+            yield from self.construct(st.env["__cls__"].name, args, kwargs, st, node)
+            return
         if not isinstance(fn, Callable_):
             raise Unsupported("call of non-callable %r" % (fn,), node)
         k = fn.kind
